@@ -225,6 +225,8 @@ class HookIter(Iter):
 
 
 def make(ex, s, itv, st, fi, spec):
+    if hasattr(itv, 'py_iter'):
+        itv = itv.py_iter(ex, st, s.lineno)
     args = (ex, s, itv, st, fi, spec)
     if isinstance(itv, tuple) and itv and itv[0] == '$range':
         if itv[3] != 1:
@@ -251,9 +253,16 @@ def make(ex, s, itv, st, fi, spec):
         mk = hook(ex, st, itv) if hook else NotImplemented
         if mk is NotImplemented:
             if itv.has is None:
-                lst = TokList([Single(k) for k in itv.items])
+                lst = TokList([Single(k) for k in itv.items] +
+                              [Single(k) for k, _ in itv.sym_items])
                 return ListIter(ex, s, lst, st, fi, spec)
-            raise Unsupported('iteration over dict %s' % itv.tag)
+            d = itv
+
+            def mk(ex_, st_, d=d):
+                # generic key of an abstract dictionary
+                k = sym.fresh_seq('str', 'key', st_.assume)
+                st_.assume(d.has(ex_, st_, k))
+                return k
         return HookIter(*args, mk=mk)
     if isinstance(itv, tuple) and not (itv and isinstance(itv[0], str)
                                        and itv[0].startswith('$')):
